@@ -411,8 +411,9 @@ Proof.
   - destruct Hd as [Hfresh Hd]. split; [exact I|].
     cbn [bstep] in *. rewrite (next_request_ok cs r c Hv Hi) in *. cbn [res_bind fst] in *.
     eapply IH; eauto.
-    + unfold rinv; cbn. repeat split; auto. intros off c0 E. inversion E; auto.
-    + cbn. intros off c0 E. inversion E; subst. left; reflexivity.
+    + unfold rinv; cbn [chunk filter next last_req].
+      split; [auto|split; [auto|split; [auto|split; [auto|intros off c0 E; inversion E; auto]]]].
+    + cbn [last_req]. intros off c0 E. inversion E; subst. left; reflexivity.
   - destruct Hd as [Hans Hd]. split.
     + unfold honest_step. destruct (last_req r) as [[off ec]|] eqn:El; auto.
       intros -> Eb. rewrite Hc in *. apply Hans; auto.
